@@ -40,7 +40,7 @@ fn commitments(v: &Value, path: String, out: &mut Vec<(String, Integer, Integer)
 fn setup(h: &mut H) -> (Keys, Value, Vec<Issue>, Vec<Pok>) {
     let p = params(h.suite);
     let n = 3usize;
-    let k = keygen(h, n);
+    let k = keygen_for(h, n);
     let (ck, _) = cpk(h, Some(&k.n_mod), n);
     let mut issues = Vec::new();
     let mut poks = Vec::new();
@@ -54,7 +54,8 @@ fn setup(h: &mut H) -> (Keys, Value, Vec<Issue>, Vec<Pok>) {
             // hide the same attributes answers for every hidden attribute once more
             if u.len() >= 2 || h.thorough {
                 if tcpk.is_none() {
-                    tcpk = Some(cpk(h, None, n).0);
+                    // (an own-modulus key needs a safe-prime search: only for the default suite / thorough tier)
+                    tcpk = Some(if h.suite == "cl1024" || (h.thorough && h.suite == "cl2048") { cpk(h, None, n).0 } else { cpk(h, Some(&k.n_mod), n).0 });
                 }
                 if let Some(i) = holder(h, &k, n, &u, tcpk.as_ref(), msgs.clone()) {
                     issues.push(i);
@@ -86,6 +87,27 @@ fn setup(h: &mut H) -> (Keys, Value, Vec<Issue>, Vec<Pok>) {
     }
     let _ = p;
     (k, ck, issues, poks)
+}
+
+/// the recorded draws of a generation with the production randomness: every free blinding (a `bits` draw that
+/// does not feed `next_prime`) is a fresh random value -- not a boundary constant of its contract
+/// (2^(k-1), 2^k - 1) and not equal to another blinding of the same proof. A blinding that is a constant or is
+/// shared between two secrets can be subtracted / cancelled by the recipient, whatever its length.
+fn tape_randomness(h: &mut H, class: &str, what: &str, tape: &[(String, Integer)], id: u64) {
+    let free: Vec<&Integer> = tape
+        .iter()
+        .enumerate()
+        .filter(|(i, (k, v))| k == "bits" && *v > 0 && !(i + 1 < tape.len() && tape[i + 1].0 == "prime"))
+        .map(|(_, (_, v))| v)
+        .collect();
+    let mut seen = std::collections::BTreeSet::new();
+    for v in &free {
+        let k = v.significant_bits();
+        if k < 64 { continue; }
+        let boundary = **v == pow2(k - 1) || **v == Integer::from(pow2(k) - 1u32);
+        h.expect(!boundary, class, &format!("{}: a {}-bit blinding is the boundary constant of its range, not a random value", what, k), &[id]);
+        h.expect(seen.insert((*v).clone()), class, &format!("{}: two {}-bit blindings of one proof are equal", what, k), &[id]);
+    }
 }
 
 pub fn c17(h: &mut H) {
@@ -209,6 +231,7 @@ pub fn c17(h: &mut H) {
         let id = h.last();
         let real = !is_boundary(&iss.zk_tape);
         run(h, "issuance", &iss.zk, &secrets, None, id, real);
+        if real { tape_randomness(h, "C17.blinding_not_random", "issuance", &iss.zk_tape, id); }
     }
     for pk in &poks {
         let mut secrets: Vec<(String, Integer)> = pk.hidden.iter().map(|&i| (format!("m_{}", i), pk.msgs[i].clone())).collect();
@@ -224,6 +247,7 @@ pub fn c17(h: &mut H) {
         let id = h.last();
         let real = !is_boundary(&pk.tape);
         run(h, "signature_proof", &pk.pok, &secrets, Some(&v), id, real);
+        if real { tape_randomness(h, "C17.blinding_not_random", "signature_proof", &pk.tape, id); }
     }
 }
 
@@ -331,6 +355,8 @@ pub fn c19(h: &mut H) {
         }
         rps.push(("commitment randomness r".into(), iss.zk["range_proof_r"].clone(), Integer::from(0), pow2(p.ln) - 1, field(&iss.c, "randomness")));
         boudot_leaks(h, "issuance", &rps, id);
+        let all_min = { let t = &iss.zk_tape; let f: Vec<&Integer> = t.iter().enumerate().filter(|(i, (k, v))| k == "bits" && *v > 0 && !(i + 1 < t.len() && t[i + 1].0 == "prime")).map(|(_, (_, v))| v).collect(); f.len() >= 2 && f.iter().all(|v| **v == pow2(v.significant_bits() - 1)) };
+        if !all_min { tape_randomness(h, "C19.blinding_not_random", "issuance", &iss.zk_tape, id); }
     }
     for pk in &poks {
         let mut secrets: Vec<(String, Integer)> = pk.hidden.iter().map(|&i| (format!("m_{}", i), pk.msgs[i].clone())).collect();
@@ -354,6 +380,8 @@ pub fn c19(h: &mut H) {
         }
         rps.push(("signature exponent e".into(), pk.pok["range_proof_e"].clone(), pow2(p.le - 1) + 1, pow2(p.le) - 1, field(&pk.sig, "e")));
         boudot_leaks(h, "signature_proof", &rps, id);
+        let all_min = { let t = &pk.tape; let f: Vec<&Integer> = t.iter().enumerate().filter(|(i, (k, v))| k == "bits" && *v > 0 && !(i + 1 < t.len() && t[i + 1].0 == "prime")).map(|(_, (_, v))| v).collect(); f.len() >= 2 && f.iter().all(|v| **v == pow2(v.significant_bits() - 1)) };
+        if !all_min { tape_randomness(h, "C19.blinding_not_random", "signature_proof", &pk.tape, id); }
         // two proofs from the same signature must not be linkable through a recovered e
         let e = field(&pk.sig, "e");
         let s4 = field(&pk.pok["spok"], "s_4");
